@@ -29,9 +29,21 @@ pub enum Signal {
     SlowSine,
     /// low-degree polynomial in the sample index, scaled to the bit depth
     Polynomial,
+    /// the impulse response of an all-pole filter with a 12-32 fold pole at 0.5-0.85, restarted every
+    /// `resonant_period` samples: with a block size equal to the period the ideal predictor has
+    /// coefficients in the hundreds, beyond what the 7-8 bit precision of blocks <= 384 samples can
+    /// hold at shift 0 (the encoder's negative-shift quantisation branch)
+    Resonant,
 }
 
-pub const ALL_SIGNALS: [Signal; 22] = [
+pub const RESONANT_PERIODS: [usize; 6] = [96, 150, 192, 256, 300, 384];
+
+/// the period `Signal::Resonant` uses when generated from `Rng::new(seed)`
+pub fn resonant_period(seed: u64) -> usize {
+    *Rng::new(seed).pick(&RESONANT_PERIODS)
+}
+
+pub const ALL_SIGNALS: [Signal; 23] = [
     Signal::Silence,
     Signal::Constant,
     Signal::FullScaleSquare,
@@ -54,6 +66,7 @@ pub const ALL_SIGNALS: [Signal; 22] = [
     Signal::QuietTonal,
     Signal::SlowSine,
     Signal::Polynomial,
+    Signal::Resonant,
 ];
 
 pub fn lo(bps: u32) -> i64 {
@@ -273,6 +286,37 @@ pub fn generate(sig: Signal, channels: usize, bps: u32, frames: usize, rng: &mut
             for i in 0..frames {
                 for c in 0..channels {
                     let v = 0.9 * amp * p(i as f64 / n) / peak * if c % 2 == 1 { -1.0 } else { 1.0 };
+                    out[i * channels + c] = clip(v.round() as i64, bps);
+                }
+            }
+        }
+        Signal::Resonant => {
+            let period = *rng.pick(&RESONANT_PERIODS);
+            let p = *rng.pick(&[12usize, 14, 16, 20, 24, 32]);
+            let r = *rng.pick(&[0.5f64, 0.6, 0.7, 0.75, 0.8, 0.85]);
+            let noise = *rng.pick(&[1e-9f64, 1e-6, 1e-3]);
+            // a(z) = (1 - r z^-1)^p
+            let mut a = vec![1.0f64];
+            for _ in 0..p {
+                let mut b = vec![0.0; a.len() + 1];
+                for (i, v) in a.iter().enumerate() {
+                    b[i] += v;
+                    b[i + 1] -= r * v;
+                }
+                a = b;
+            }
+            let mut x = vec![0.0f64; period];
+            for i in 0..period {
+                let mut v = (rng.f64() - 0.5) * noise + if i == 0 { 1.0 } else { 0.0 };
+                for k in 1..=p.min(i) {
+                    v -= a[k] * x[i - k];
+                }
+                x[i] = v;
+            }
+            let peak = x.iter().fold(1e-300f64, |m, v| m.max(v.abs()));
+            for i in 0..frames {
+                for c in 0..channels {
+                    let v = 0.9 * amp * x[i % period] / peak * if c % 2 == 1 { -0.5 } else { 1.0 };
                     out[i * channels + c] = clip(v.round() as i64, bps);
                 }
             }
